@@ -239,7 +239,10 @@ class Program:
         self._fn_hazards, self._class_hazards = self._static_hazards()
         self.class_hooks = {}           # class -> why its class-creation hook is not followed (methods are then undecided)
         self.registry_attrs = set()     # class-level containers filled by __init_subclass__ hooks
+        self._instance_attrs = {}
         self._synthesise_dataclass_inits()
+        self._synthesise_descriptor_reads()
+        self._instance_attrs = {}
         self._apply_class_hooks()
         self._dynamic_features()
         self._summaries = {}
@@ -414,6 +417,42 @@ class Program:
             if ast.unparse(d.func if isinstance(d, ast.Call) else d) in ("dataclass", "dataclasses.dataclass"):
                 return {k.arg: k.value for k in d.keywords} if isinstance(d, ast.Call) else {}
         return None
+
+    def _synthesise_descriptor_reads(self):
+        """`name = _Descriptor(args)` in a class body, with `_Descriptor` a private package class that defines `__get__`:
+        reading `obj.name` runs `_Descriptor.__get__(descriptor, obj, type(obj))`.  The read is written out as the
+        property it amounts to (the descriptor is built, told its name, and asked), and analysed like a hand-written
+        one.  Not done when the descriptor also takes writes (`__set__`) and the attribute is assigned somewhere: then
+        reads and writes go through state the descriptor keeps, which is not followed."""
+        for m in list(self.modules.values()):
+            for k in list(m.classes.values()):
+                for attr, node in list(k.class_attrs.items()):
+                    if not (isinstance(node, ast.Call) and isinstance(node.func, (ast.Name, ast.Attribute))) or attr in k.methods:
+                        continue
+                    K = self.resolve_class(m, node.func)
+                    if K is None or not K.name.startswith("_") or self.find_method(K, "__get__")[1] is None or \
+                            self.ext_bases(K) or any(isinstance(a, ast.Starred) for a in node.args):
+                        continue
+                    assigned = False
+                    for c in self.all_classes():
+                        if k in self.mro(c) and attr in self.instance_attrs(c):
+                            assigned = True
+                    if assigned and self.find_method(K, "__set__")[1] is not None:
+                        continue
+                    tell = f"    descriptor.__set_name__(type(self), {attr!r})\n" if self.find_method(K, "__set_name__")[1] else ""
+                    src = (f"@property\ndef {attr}(self):\n    descriptor = {ast.unparse(node)}\n{tell}"
+                           f"    return descriptor.__get__(self, type(self))\n")
+                    try:
+                        fn = ast.parse(src).body[0]
+                    except SyntaxError:
+                        continue
+                    for sub in ast.walk(fn):
+                        if isinstance(sub, (ast.expr, ast.stmt, ast.arg, ast.keyword)):
+                            ast.copy_location(sub, node)
+                            sub.end_lineno = getattr(node, "end_lineno", node.lineno)
+                    k.methods[attr] = fn
+                    del k.class_attrs[attr]
+                    self.fn_module[id(fn)] = m
 
     def _synthesise_dataclass_inits(self):
         """A mutable @dataclass gets the `__init__` the decorator would write: one parameter per field (those of base
@@ -983,6 +1022,13 @@ def cmp_term(op, a, b):
                 return ("const", eq if op == "==" else not eq)
             if x[0] == "enum" and y[0] == "const" and op in ("==", "!=") and x[4] == "enum" and y[1] is not None:
                 return ("const", op == "!=")        # a plain Enum member never equals a plain value
+    if op in ("in", "not in") and isinstance(b, tuple) and b:
+        items = b[1] if (b[0] == "tuple" and len(b) == 2) else (b[3] if b[0] == "new" and b[2] in ("list", "set", "frozenset", "tuple") else None)
+        if items is not None and 1 <= len(items) <= 4 and all(isinstance(i, tuple) and i and i[0] == "const" and
+                                                               isinstance(i[1], (str, int)) for i in items):
+            # x in ('a', 'b') is x == 'a' or x == 'b'
+            parts = tuple(cmp_term("==" if op == "in" else "!=", a, i) for i in items)
+            return parts[0] if len(parts) == 1 else (("or", parts) if op == "in" else ("and", parts))
     if a == b and op in ("==", "!=", "<", "<=", ">", ">=") and isinstance(a, tuple) and a and a[0] == "fn" and a[1] == "len":
         return ("const", op in ("==", "<=", ">="))        # a length compared with itself
     if op in ("is", "is not") and b == ("const", None):
@@ -1003,7 +1049,7 @@ def cmp_term(op, a, b):
 
 
 _NEVER_NONE = ("tuple", "new", "comp", "flat", "op", "draw", "cmp", "fstr", "str", "partial", "closure", "lambda", "enum",
-               "getter", "methodcaller")
+               "getter", "methodcaller", "self", "outer", "owned")
 _VALUE_FUNCTIONS = {"exp", "log", "floor", "ceil", "sqrt", "abs", "len", "int", "float", "sum", "max", "min", "str", "bool",
                     "round", "range", "enumerate", "zip", "tuple", "sorted", "reversed", "mean", "pow", "iter", "repeat", "count"}
 _METHOD_NAMES = {"append", "extend", "insert", "pop", "popleft", "appendleft", "remove", "clear", "update", "add",
@@ -3279,9 +3325,17 @@ class Summariser:
             self.env = self.merge(cond, env_t, self.env)
             self.fields = self.merge(cond, f_t, self.fields, field=True)
             return
-        for item in self._display_items(it, _plain_list(st.iter)):
+        items = self._display_items(it, _plain_list(st.iter))
+        for i, item in enumerate(items):
             self.bind_target(st.target, item)
-            ev, term, ret = self.block(st.body)
+            saved = self.stack
+            if i:
+                # what the body creates is created once per item: the creation sites of later items are their own
+                self.stack = self.stack + (f"item{i}@{st.lineno}",)
+            try:
+                ev, term, ret = self.block(st.body)
+            finally:
+                self.stack = saved
             if term:
                 raise Unsupported(f"terminating loop body at {self.module.path}:{st.lineno}")
             events.extend(ev)
@@ -3433,6 +3487,13 @@ class Summariser:
                         for k in self.prog.mro(self.cls):
                             if e.attr in k.class_attrs:
                                 # names in the class body are names of the module that defines the class
+                                cnode = k.class_attrs[e.attr]
+                                if isinstance(cnode, ast.Call) and isinstance(cnode.func, (ast.Name, ast.Attribute)):
+                                    DK = self.prog.resolve_class(k.module, cnode.func)
+                                    if DK is not None and (self.prog.find_method(DK, "__get__")[1] is not None or any(
+                                            str(b).rsplit(".", 1)[-1] == "property" for b in self.prog.ext_bases(DK))):
+                                        raise Unsupported(f"{k.name}.{e.attr} is a descriptor object ({DK.name}) whose __get__ is not "
+                                                          f"followed, read at {self.module.path}:{e.lineno}")
                                 v = self._const_term(k.module, k.class_attrs[e.attr]) if e.attr not in self.prog.mutated_attrs else None
                                 if v is None and isinstance(k.class_attrs[e.attr], ast.Name):
                                     r = self.prog.resolve_name(k.module, k.class_attrs[e.attr].id)
@@ -3628,6 +3689,9 @@ class Summariser:
                         return ("str", ast.unparse(e))
                     inner = self._expr(v.value, events)
                     parts.append(("fn", {115: "str", 114: "repr", 97: "ascii"}.get(v.conversion, "str"), (inner,)))
+            if parts and all(p_[0] == "const" or (p_[0] == "fn" and p_[1] == "str" and p_[2][0][0] == "const" and
+                                                  isinstance(p_[2][0][1], (str, int))) for p_ in parts):
+                return ("const", "".join(str(p_[1] if p_[0] == "const" else p_[2][0][1]) for p_ in parts))   # f"_{name}_x" with known parts
             if len(parts) > 6:
                 return ("str", ast.unparse(e))      # long messages stay opaque
             out = None
@@ -3964,8 +4028,8 @@ class Summariser:
                     if val is not None:
                         return val
             recv = self.field(fn_)
-            if recv[0] == "partial":
-                val = self._call_value(recv, args, kwargs, events, e)       # the partial the constructor left there
+            if recv[0] in ("partial", "getter", "methodcaller", "closure") or (recv[0] == "global" and fn_.startswith("%")):
+                val = self._call_value(recv, args, kwargs, events, e)       # the callable the constructor left there
                 if val is not None:
                     return val
             res = ("res", self.site(e), f"self.{fn_}", args, kwargs)
@@ -4044,6 +4108,10 @@ class Summariser:
             elif r is None and f.id in PURE_BUILTINS:
                 if f.id == "bool" and len(args) == 1 and not kwargs and _is_bool(args[0]):
                     return args[0]
+                if f.id == "isinstance" and len(args) == 2 and not kwargs:
+                    known = self._isinstance_of_record(args[0], args[1])
+                    if known is not None:
+                        return known
                 if f.id in ("int", "float", "str", "bool") and not args and not kwargs:
                     return ("const", {"int": 0, "float": 0.0, "str": "", "bool": False}[f.id])
                 if f.id == "getattr" and len(args) in (2, 3) and not kwargs and args[0] == ("self",) and \
@@ -4212,6 +4280,23 @@ class Summariser:
                 self.env[f.value.id] = ("new", recv[1], "list", recv[3] + (args[0],))
                 self.prog.queue_lists.add(recv[1])
                 return ("const", None)
+            if recv[0] == "field0" and self.field_prefix and "." not in recv[1] and not recv[1].startswith("%") and \
+                    self.fields.get(recv[1], recv) == recv and isinstance(self._root_key(), str) and \
+                    not self._root_key().startswith("<"):
+                # inside a collaborator (a descriptor asked for `getattr(instance, name).get()`): a method of an object
+                # the owner holds -- judged in the owner's context
+                try:
+                    root = self.prog.cls(self._root_key())
+                except Unsupported:
+                    root = None
+                if root is not None:
+                    saved = (self.cls, self.field_prefix, getattr(self, "_owner_key", None))
+                    self.cls, self.field_prefix = root, ""
+                    try:
+                        if self._owned_class(recv[1]) is None and not self._is_property(recv[1]):
+                            return self._field_method_call(recv[1], f.attr, args, kwargs, events, e)
+                    finally:
+                        self.cls, self.field_prefix, self._owner_key = saved
             res = ("res", self.site(e), "." + f.attr, (recv,) + args, kwargs)
             if f.attr in MUTATORS:
                 events.append(Mut(recv, f.attr, args, kwargs, res, line))
@@ -4231,6 +4316,32 @@ class Summariser:
         res = ("res", self.site(e), "expr-call", (recv,) + args, kwargs)
         events.append(Call("expr", None, recv, args, kwargs, res, line))
         return res
+
+    def _isinstance_of_record(self, x, k):
+        """isinstance(x, K) for x a record display (or None, or a selection between such) and K an immutable record class
+        of the package: decided by the component names when these identify the class; None if not decided."""
+        if not (k[0] == "global" and "." in k[1]):
+            return None
+        mod, name = k[1].rsplit(".", 1)
+        K = self.prog.modules[mod].classes.get(name) if mod in self.prog.modules else None
+        if K is None or K.record_fields is None:
+            return None
+        want = tuple(n for n, _ in K.record_fields)
+
+        def decide(t):
+            if t[0] == "gate":
+                a, b = decide(t[2]), decide(t[3])
+                return gate(t[1], a, b) if a is not None and b is not None else None
+            if t == ("const", None) or t == RAISES:
+                return ("const", False)
+            if t[0] == "tuple" and len(t) == 3 and t[2][:1] == ("names",):
+                have = t[2][1:]
+                owners = self.prog.record_classes.get(tuple(have), set())
+                if have != want:
+                    return ("const", False) if len(owners) >= 1 and K.qual not in owners else None
+                return ("const", True) if owners == {K.qual} else None
+            return None
+        return decide(x)
 
     def _construct(self, cls, args, kwargs, events, e):
         """Instantiation of a package class; an immutable record class is a tuple display with named fields."""
@@ -5019,6 +5130,11 @@ class Summariser:
                     me = next((n for n, v in self.env.items() if v == ("self",)), self.self_name)
                     node = ast.copy_location(ast.Attribute(value=ast.Name(id=me, ctx=ast.Load()), attr=part, ctx=ast.Load()), e)
                     ast.fix_missing_locations(node)
+                    out = self._expr(node, events)
+                elif out[0] == "outer":
+                    # the owning object, seen from its collaborator: the attribute is read like `owner.name`
+                    node = ast.copy_location(ast.Attribute(value=_Term(out, e), attr=part, ctx=ast.Load()), e)
+                    node.end_lineno = getattr(e, "end_lineno", e.lineno)
                     out = self._expr(node, events)
                 else:
                     out = attr_of(out, part)
